@@ -229,6 +229,7 @@ class Actor:
         self.buf = b""
         self.tasks_run = 0
         self.name = None
+        self.sleep_until = None
 
 
 class Templater:
@@ -273,6 +274,9 @@ class Hub:
         self.crashed = False
         self.crash_label = None
         self.killed_label = None
+        self._spin = {}
+        self.now = 0.0                # simulated seconds (advances only when every runnable actor sleeps)
+        self.clock_jumps = 0
         self.exit_code = None
         self.map_state = None
         self.maps = []            # per map: {"fn":..., "placement": {slot: [tasks]}}
@@ -445,11 +449,30 @@ class Hub:
                 running = slot
                 continue
             if m["t"] == "ev":
+                if m["k"] == "sleep":
+                    a.sleep_until = None          # woken up: the sleep is over
+                else:
+                    self.clock_jumps = 0
                 seq = self.ev_seq
                 self.ev_seq += 1
                 label = "%s:%s:%s" % (a.role, m["k"], self.templ(m["p"]))
                 self.trace.append(["ev", seq, a.slot, label])
                 self._observe(a, m, seq)
+                # bounded liveness: an actor that only repeats a cycle of <= 3 labels (sleep / poll) for 600 events in a row,
+                # while no other actor can change anything for it any more, will never finish
+                rep = self._spin.setdefault(a.slot, [set(), 0])
+                if label in rep[0]:
+                    rep[1] += 1
+                else:
+                    rep[0].add(label)
+                    if len(rep[0]) > 3:
+                        rep[0], rep[1] = {label}, 0
+                if rep[1] > 600:
+                    alive = [x for x in self.actors.values() if x.alive and x.pending is not None]
+                    if all(self._spin.get(x.slot, [set(), 0])[1] > 600 for x in alive):
+                        self.kill_all()
+                        raise HarnessError("livelock: actors %s only repeat %s" % (
+                            sorted(x.slot for x in alive), sorted(set(l.split(":", 1)[1] for x in alive for l in self._spin[x.slot][0]))[:4]))
                 f = self.fault
                 if f.get("kind") == "kill_actor" and f.get("index") == seq and a.role != "worker":
                     # only this top-level actor dies (OOM killer, scancel of one job); its peers go on
@@ -533,6 +556,23 @@ class Hub:
         self.trace.append(["map", m.get("fn"), m["n"], w])
 
     def _moves(self):
+        moves = self._moves_at(self.now)
+        if not moves:
+            # nothing is runnable now: simulated time jumps to the earliest wake-up
+            wake = [a.sleep_until for a in self.actors.values()
+                    if a.alive and a.pending is not None and getattr(a, "sleep_until", None) is not None and a.sleep_until > self.now]
+            if wake:
+                self.now = min(wake)
+                self.clock_jumps += 1
+                if self.clock_jumps > 400:
+                    sl = sorted(a.slot for a in self.actors.values() if a.alive and a.pending is not None)
+                    self.kill_all()
+                    raise HarnessError("livelock: actors %s only sleep and poll (simulated clock advanced %d times in a row to "
+                                       "%.0f s without any other event)" % (sl, self.clock_jumps, self.now))
+                moves = self._moves_at(self.now)
+        return moves
+
+    def _moves_at(self, now):
         moves = []
         fresh_seen = False
         ms = self.map_state
@@ -540,6 +580,11 @@ class Hub:
             a = self.actors[s]
             if not a.alive or a.pending is None:
                 continue
+            if a.pending.get("t") == "ev" and a.pending.get("k") == "sleep":
+                if getattr(a, "sleep_until", None) is None:
+                    a.sleep_until = now + float(a.pending.get("d") or 0.0)
+                if a.sleep_until > now:
+                    continue
             t = a.pending["t"]
             if t in ("ev", "done", "glob", "hello"):
                 moves.append(("run", s))
